@@ -502,6 +502,31 @@ func c04SessionState(c *Ctx) {
 			}
 		}
 	}
+	if clr != nil {
+		// the clear is final: no call that can store DB.syncState (the shutdown sync writes the
+		// executor's state back) is reachable after it
+		writers := funcsReachingStore(c.P, "DB.syncState")
+		region := reachable(fn, clr.Block(), nil)
+		late := ""
+		for _, k := range calls(fn) {
+			if _, isDefer := k.(*ssa.Defer); isDefer {
+				continue
+			}
+			h := k.Common().StaticCallee()
+			if h == nil || !writers[h] {
+				continue
+			}
+			after := region[k.Block()] && k.Block() != clr.Block()
+			if k.Block() == clr.Block() && instrIndex(k) > instrIndex(clr) {
+				after = true
+			}
+			if after {
+				late = calleeName(k) + " @ " + c.pos(k)
+			}
+		}
+		c.check(late == "", rule, fnName(fn)+": nothing restores DB.syncState after it was cleared", c.pos(clr), "no writer of DB.syncState is called after the clear",
+			"the session state is cleared before "+late+", which stores the executor's WAL cursor back: the closed DB keeps syncedToWALEnd/lastSyncedWALOffset and a WAL truncated while it was closed is taken for litestream's own checkpoint after a restart")
+	}
 	c.check(ok, rule, fnName(fn)+": clears DB.syncState in the teardown block", c.P.Pos(fn.Pos()), "db.syncState = syncState{} next to db.db = nil", "the in-memory WAL cursor (syncedToWALEnd, lastSyncedWALOffset) survives Close: after a stop/start of the same DB object a WAL truncated by the application is taken for litestream's own checkpoint and replication continues incrementally, skipping frames")
 	// newSyncExecutor seeds each executor from db.syncState and applySyncExecutor writes it back (session-scoped)
 	if ne := c.fn(rule, "(*ls.DB).newSyncExecutor"); ne != nil {
@@ -554,6 +579,28 @@ func c04Wipe(c *Ctx) {
 			c.check(len(base) > 0 && !bad, rule, name+": removing the local LTX directory on a live database re-establishes the baseline", c.pos(call),
 				"every success path after the wipe fetches the replica's newest L0 file (or the database is not initialised)",
 				"the local LTX directory is wiped without fetching a baseline: on a running database the next sync restarts TXIDs at 1 underneath the replica's files")
+			// the baseline check compares the *current* local position with the replica: the
+			// position cached before the wipe must be dropped between the wipe and the check
+			// (a stale cached position at or above the replica's makes the check return early)
+			for _, b := range base {
+				if calleeName(b.Call()) != "(*ls.DB).checkDatabaseBehindReplica" {
+					continue
+				}
+				okInv := false
+				for _, inv := range callSitesV(fn, nameIs("(*ls.DB).invalidatePosCache")) {
+					if _, isDefer := inv.Call().(*ssa.Defer); isDefer {
+						continue
+					}
+					if _, isDefer := inv.At().(*ssa.Defer); isDefer {
+						continue
+					}
+					if dominates(call, inv.At()) && dominates(inv.At(), b.At()) {
+						okInv = true
+					}
+				}
+				c.check(okInv, rule, name+": the cached position is invalidated between the wipe and the baseline check", c.pos(b.At()),
+					"invalidatePosCache() after RemoveAll and before checkDatabaseBehindReplica", "the baseline check runs on the position cached before the wipe: it sees the database level with the replica, fetches nothing, and the next sync restarts at TXID 1 underneath the replica's files")
+			}
 			// serialised with sync
 			if name == "(*ls.DB).ResetLocalState" {
 				la := newLockAnalysis(c.P)
@@ -650,4 +697,43 @@ func c04Behind(c *Ctx) {
 	if m := c.fn(rule, "(*ls.Replica).MaxLTXFileInfo"); m != nil {
 		c.floor(rule, listingCompleteness(c, rule, m), 1, "listing loop in Replica.MaxLTXFileInfo")
 	}
+}
+
+// funcsReachingStore: the production functions from which a store to the given field is
+// reachable through static calls (closures included).
+func funcsReachingStore(p *Prog, field string) map[*ssa.Function]bool {
+	direct := map[*ssa.Function]bool{}
+	for _, g := range p.ProdFuncs() {
+		if len(storesToField(g, field)) > 0 {
+			root := g
+			for root.Parent() != nil {
+				root = root.Parent()
+			}
+			direct[root] = true
+		}
+	}
+	out := map[*ssa.Function]bool{}
+	for f := range direct {
+		out[f] = true
+	}
+	for changed := true; changed; {
+		changed = false
+		for _, g := range p.ProdFuncs() {
+			root := g
+			for root.Parent() != nil {
+				root = root.Parent()
+			}
+			if out[root] {
+				continue
+			}
+			for _, k := range calls(g) {
+				if h := k.Common().StaticCallee(); h != nil && out[h] {
+					out[root] = true
+					changed = true
+					break
+				}
+			}
+		}
+	}
+	return out
 }
